@@ -452,6 +452,8 @@ impl<K: KeyT, V: ValT> MapWorld<K, V> {
         let vtoks: Vec<(u32, u32)> = vals.iter().map(|v| (v.val(), v.serial())).collect();
         let mut fc = self.fctx(si, op);
         fc.toggles = true;
+        // a chain is several calls: an earlier step may legitimately have grown the table before a later step panics
+        fc.multi = methods.len() > 1;
         fc.allowed = vtoks.iter().map(|v| (kid, v.0)).collect();
         fc.arg_serials = std::iter::once(ks).chain(vtoks.iter().map(|v| v.1)).collect();
         self.note_entry_state(si);
